@@ -178,6 +178,7 @@ pub fn run(ctx: &Ctx) {
         ctx.add("distinct_document_multisets", sets as u64);
     }
     names_part(ctx);
+    variants_part(ctx);
     families(ctx);
     // the reference's own laws, exhaustively on the small alphabet: join is commutative and idempotent and agrees with batch inference
     let alphabet = materialise(plain_cfg(2));
@@ -368,6 +369,125 @@ impl<'a> std::io::BufRead for FailingReader<'a> {
 
 /// further families: histories [d, d, e] over a structure-only space with three element names,
 /// documents with hundreds of occurrences supplied twice, and extensions whose reader fails
+/// the second document of a history in other spellings of the same structure: cut off before its
+/// trailing end tags (the library accepts input that ends inside open elements), wrapped in a prolog /
+/// epilog (declaration, DOCTYPE, comments, processing instructions); and all ordered pairs over an
+/// attribute-heavy space (two element names carrying the same attribute names)
+fn variants_part(ctx: &Ctx) {
+    use crate::docspace::{Space, SpaceCfg};
+    let alphabet = materialise(history_cfg(2));
+    let truncated = |d: &DocEntry| -> Option<DocEntry> {
+        let mut x = d.xml.as_str();
+        loop {
+            let t = x;
+            if t.ends_with('>') && !t.ends_with("/>") {
+                if let Some(pos) = t.rfind("</") {
+                    if !t[pos..].contains(' ') && t[pos + 2..t.len() - 1].chars().all(|c| c.is_alphanumeric() || ":_-.".contains(c)) {
+                        x = &t[..pos];
+                        continue;
+                    }
+                }
+            }
+            break;
+        }
+        if x.len() == d.xml.len() || !x.contains('<') {
+            None
+        } else {
+            Some(DocEntry { xml: x.to_string(), doc: d.doc.clone() })
+        }
+    };
+    let wrappers = super::c11::wrappers();
+    let step = |el: &Element<String>, before: &[&DocEntry], d: &DocEntry, rank: u64| -> bool {
+        let ev = Event::doc(d.clone());
+        let succ = match subject::guarded(|| subject::extend(el.clone(), &ev.bytes)) {
+            Ok(Ok(e)) => Some(e),
+            _ => None,
+        };
+        let t = Transition { pred: el, before: before.to_vec(), event: &ev, succ: succ.as_ref(), rank };
+        ctx.report_all(judge_transition(&t, None));
+        succ.is_some()
+    };
+    let n = alphabet.len() as u64;
+    let res = crate::par::par_for(
+        n * n,
+        ctx.threads,
+        16,
+        Some(ctx.deadline),
+        |_| 0u64,
+        |acc, idx| {
+            let a = &alphabet[(idx / n) as usize];
+            let b = &alphabet[(idx % n) as usize];
+            let rank = (1 << 53) | idx;
+            let el0 = match run_history(&[a]) {
+                Ok(e) => e,
+                Err(_) => return,
+            };
+            if let Some(bt) = truncated(b) {
+                if step(&el0, &[a], &bt, rank) {
+                    *acc += 1;
+                }
+                // ... and a complete document after a truncated one
+                if let Some(at) = truncated(a) {
+                    if let Ok(el_t) = run_history(&[&at]) {
+                        if step(&el_t, &[&at], b, rank) {
+                            *acc += 1;
+                        }
+                    }
+                }
+            }
+            if (idx / n) % 5 == 0 {
+                for (p, e) in &wrappers {
+                    let doc = crate::dom::Doc { prolog: p.clone(), root: b.doc.root.clone(), epilog: e.clone() };
+                    let w = DocEntry::from_doc(doc);
+                    if step(&el0, &[a], &w, rank) {
+                        *acc += 1;
+                    }
+                }
+            }
+        },
+    );
+    let mut transitions: u64 = res.accs.iter().sum();
+    let sp = Space::new(SpaceCfg {
+        root: "r".into(),
+        enames: vec!["a".into(), "b".into()],
+        anames: vec!["x".into(), "y".into()],
+        attr_seq: false,
+        max_attrs: 2,
+        depth: 2,
+        kinds: vec![],
+        both_empty: false,
+        root_attrs: false,
+        max_weight: ctx.tier.pick(5, 6),
+    });
+    let docs: Vec<DocEntry> = (0..sp.len()).map(|i| DocEntry::from_root(sp.get(i))).collect();
+    let m = docs.len() as u64;
+    let res2 = crate::par::par_for(
+        m * m,
+        ctx.threads,
+        64,
+        Some(ctx.deadline),
+        |_| 0u64,
+        |acc, idx| {
+            let a = &docs[(idx / m) as usize];
+            let b = &docs[(idx % m) as usize];
+            if let Ok(el0) = run_history(&[a]) {
+                if step(&el0, &[a], b, (1 << 54) | idx) {
+                    *acc += 1;
+                }
+            }
+        },
+    );
+    transitions += res2.accs.iter().sum::<u64>();
+    ctx.add("transitions", transitions);
+    ctx.set(
+        "document_variants",
+        json!({"pairs_over_alphabet": res.processed, "wrappers": wrappers.len(), "attribute_heavy_space": sp.cfg.describe(), "attribute_heavy_documents": m, "attribute_heavy_pairs": res2.processed, "transitions": transitions}),
+    );
+    if !res.complete || !res2.complete {
+        ctx.set("exhaustive", json!(false));
+    }
+}
+
 fn families(ctx: &Ctx) {
     use crate::docspace::{Space, SpaceCfg};
     let sp = Space::new(SpaceCfg {
